@@ -18,6 +18,8 @@ import DsdVerif.DriverIdent
 import DsdVerif.DriverIdent2
 import DsdVerif.DriverSingleton
 import DsdVerif.DriverUnits
+import DsdVerif.DriverSetObjects
+import DsdVerif.DriverDomain
 import DsdVerif.DriverLegacy
 import DsdVerif.Model.Dlc
 
@@ -587,6 +589,7 @@ structure DState where
   r : RState := {}
   py : List (Nat × Gen.ComplexS.Self) := []        -- handle ↦ the object as the translated methods left it
   lg : DriverLegacy.LegacyDState := {}             -- the translated legacy objects (Gen/PyLegacy.lean)
+  dom : DriverDomain.DomainDState := {}            -- the class state of the translated DomainS request (Gen/PyDomain.lean); ops prefixed `pydom.`
 
 /-- the translated object of a handle: as it was left, or (first use) as `__init__` leaves it for the model's description -/
 def pyObj (d : DState) (id : Nat) : Option Gen.ComplexS.Self :=
@@ -633,8 +636,13 @@ def stepD (d : DState) (line : String) : DState × String :=
       | none => (d, "err Fault dead-handle")
     | none => (d, "bad-op")
   | _ =>
+    if line.startsWith "pydom." then
+      match DriverDomain.stepDomain d.dom (line.drop 6).toString with
+      | some (dom', out) => ({ d with dom := dom' }, out)
+      | none => (d, "bad-op")
+    else
     match (((DriverKernel.stepKernel line).orElse (fun _ => DriverIdent.stepIdent line)).orElse (fun _ => DriverIdent2.stepIdent2 line)).orElse
-        (fun _ => (DriverSingleton.stepSingleton line).orElse (fun _ => DriverUnits.stepUnits line)) with
+        (fun _ => ((DriverSingleton.stepSingleton line).orElse (fun _ => DriverUnits.stepUnits line)).orElse (fun _ => DriverSetObjects.stepSetObjects line)) with
     | some out => (d, out)
     | none =>
       match DriverLegacy.stepLegacy d.lg line with
